@@ -79,6 +79,7 @@ package gomatrixserverlib
 //@   ensures no-creator-sender: err == nil ==> !(string(createEvent.SenderID()) in newPowerLevels.Users)
 //@   ensures no-additional-creator: err == nil ==> (forall i int :: 0 <= i && i < nAdditionalCreators(createEvent) ==> !(additionalCreatorAt(createEvent, i) in newPowerLevels.Users))
 //@   loop 1: invariant forall u string :: seen(1)[u] ==> (u != string(createEvent.SenderID()) && (forall i int :: 0 <= i && i < nAdditionalCreators(createEvent) ==> additionalCreatorAt(createEvent, i) != u))
+//@   assigns nothing
 
 // ---------------------------------------------------------------- C07: event authorisation
 
@@ -301,6 +302,7 @@ package gomatrixserverlib
 //@   ensures absent-levels: (err == nil && authEvents.PowerLevels()[0] == nil) ==> (c.Invite == 0 && c.Ban == 50 && c.Kick == 50 && c.Redact == 50 && c.UsersDefault == 0 && c.EventsDefault == 0 && c.StateDefault == 50 && c.Events == nil)
 //@   ensures absent-users: (err == nil && authEvents.PowerLevels()[0] == nil) ==> (forall u string :: UL(c, u) == ((u == creatorUserID) ? 9007199254740991 : 0))
 //@   calls PowerLevels C09.footprint-power-levels: true
+//@   assigns nothing
 
 //@ func NewJoinRuleContentFromAuthEvents
 //@   property C07, C18:safety
@@ -343,6 +345,7 @@ package gomatrixserverlib
 //@   ensures fields: result.userIDQuerier == userIDQuerier && result.roomID == roomID
 //@   ensures wf: ctxWF(*result)
 //@   ensures loaded: ctxLoaded(*result, provider)
+//@   assigns nothing
 
 //@ func (*allowerContext).allowed
 //@   property C07, C18:safety
@@ -360,6 +363,7 @@ package gomatrixserverlib
 //@   calls powerLevelsEventAllowed same-event: event == old(event)
 //@   calls redactEventAllowed same-event: event == old(event)
 //@   calls defaultEventAllowed same-event: event == old(event)
+//@   assigns nothing
 
 //@ func NewThirdPartyInviteContentFromAuthEvents
 //@   property C07, C18:safety
@@ -412,6 +416,7 @@ package gomatrixserverlib
 //@   ensures verdict: authEvents.Valid() ==> (called(allowed) && err == ret(allowed))
 //@   calls newAllowerContext fresh-context: provider == authEvents && userIDQuerier == old(userIDQuerier) && roomID == event.RoomID()
 //@   calls allowed same-event: event == old(event) && a == ret(newAllowerContext)
+//@   assigns nothing
 
 // ---------------------------------------------------------------- C09: needed state
 
@@ -1363,6 +1368,7 @@ package gomatrixserverlib
 //@   ensures all-ok: checks.AllChecksOK <==> (checks.MatchingServerName && checks.FutureValidUntilTS && (exists k string :: k in keys.VerifyKeys && isEd25519ID(k)) && (forall k string :: (k in keys.VerifyKeys && isEd25519ID(k)) ==> goodVerifyKey(keys, k)))
 //@   ensures keys-only-if-ok: !checks.AllChecksOK ==> ed25519Keys == nil
 //@   ensures returned-keys: forall k string :: k in ed25519Keys ==> (k in keys.VerifyKeys && isEd25519ID(k) && goodVerifyKey(keys, k))
+//@   assigns nothing
 
 //@ func (*DirectKeyFetcher).fetchKeysForServer
 //@   property C12, C18:safety
@@ -1404,6 +1410,7 @@ package gomatrixserverlib
 //@   loop 1: invariant forall s string :: seen(1)[s] ==> (exists i int :: 0 <= i && i < len(toVerify) && string(toVerify[i].ServerName) == s)
 //@   loop 1: invariant forall i int :: 0 <= i && i < len(toVerify) ==> (string(toVerify[i].ServerName) in needed && toVerify[i].Message == redactedJSON && toVerify[i].AtTS == e.OriginServerTS())
 //@   loop 2: invariant 0 <= idx(2) && idx(2) <= len(results) && (forall i int :: 0 <= i && i < idx(2) ==> results[i].Error == nil)
+//@   assigns nothing
 
 //@ func validateMXIDMappingSignatures
 //@   property C06, C18:safety
@@ -1412,6 +1419,7 @@ package gomatrixserverlib
 //@   calls VerifyJSONs every-mapping-signer: forall s string :: s in mapping.Signatures ==> (exists i int :: 0 <= i && i < len(requests) && string(requests[i].ServerName) == s)
 //@   loop 1: invariant forall s string :: seen(1)[s] ==> (exists i int :: 0 <= i && i < len(toVerify) && string(toVerify[i].ServerName) == s)
 //@   loop 2: invariant 0 <= idx(2) && idx(2) <= len(results) && (forall i int :: 0 <= i && i < idx(2) ==> results[i].Error == nil)
+//@   assigns nothing
 
 // canonicalOf(d) names "the canonical form CanonicalJSON produces for d" (C02, C05 use it); what CanonicalJSON
 // does is proved here: invalid JSON is an error, valid JSON is compacted and key-sorted by CanonicalJSONAssumeValid
@@ -1429,6 +1437,7 @@ package gomatrixserverlib
 //@   calls Marshal@root earlier-signatures-unchanged: forall n string, k string :: ((jhas(old(str(root_message)), "signatures") && after(Unmarshal, n in jfield(old(str(root_message)), "signatures", "map[string]map[KeyID]spec.Base64Bytes") && k in get(jfield(old(str(root_message)), "signatures", "map[string]map[KeyID]spec.Base64Bytes"), n))) && !(n == root_signingName && k == root_keyID)) ==> get(get(v.("map[string]map[KeyID]spec.Base64Bytes"), n), k) == after(Unmarshal, get(get(jfield(old(str(root_message)), "signatures", "map[string]map[KeyID]spec.Base64Bytes"), n), k))
 //@   calls Marshal@root new-signature-added: root_signingName in v.("map[string]map[KeyID]spec.Base64Bytes") && root_keyID in get(v.("map[string]map[KeyID]spec.Base64Bytes"), root_signingName) && str(get(get(v.("map[string]map[KeyID]spec.Base64Bytes"), root_signingName), root_keyID)) == str(ret(Sign))
 //@   ensures assembled: err == nil ==> str(signed) == canonicalOf((jhas(old(str(message)), "unsigned") && len(jfield(old(str(message)), "unsigned", spec.RawJSON)) > 0) ? sjset(sjset(str(arg(Sign, 1)), "signatures", str(ret(Marshal, 0))), "unsigned", str(jfield(old(str(message)), "unsigned", spec.RawJSON))) : sjset(str(arg(Sign, 1)), "signatures", str(ret(Marshal, 0))))
+//@   assigns nothing
 
 // ---------------------------------------------------------------- C05: redaction
 
@@ -1449,6 +1458,7 @@ package gomatrixserverlib
 //@   calls redactEventJSON[*unredactableEventFieldsV1] algorithm: eventTypeToKeepContentFields == unredactableContentFieldsV1 && unredactableEvent != nil && *unredactableEvent == zero("unredactableEventFieldsV1") && eventJSON == root_eventJSON
 //@   ensures delegated: called("redactEventJSON[*unredactableEventFieldsV1]") && result[0] == ret("redactEventJSON[*unredactableEventFieldsV1]", 0) && result[1] == ret("redactEventJSON[*unredactableEventFieldsV1]", 1)
 //@   ensures top-level-keys: jsonKeys("unredactableEventFieldsV1") == "auth_events,content,depth,event_id,hashes,membership,origin,origin_server_ts,prev_events,prev_state,room_id,sender,signatures,state_key,type"
+//@   assigns nothing
 
 // redaction algorithm of room versions 6, 7
 //@ func redactEventJSONV2
@@ -1456,6 +1466,7 @@ package gomatrixserverlib
 //@   calls redactEventJSON[*unredactableEventFieldsV1] algorithm: eventTypeToKeepContentFields == unredactableContentFieldsV2 && unredactableEvent != nil && *unredactableEvent == zero("unredactableEventFieldsV1") && eventJSON == root_eventJSON
 //@   ensures delegated: called("redactEventJSON[*unredactableEventFieldsV1]") && result[0] == ret("redactEventJSON[*unredactableEventFieldsV1]", 0) && result[1] == ret("redactEventJSON[*unredactableEventFieldsV1]", 1)
 //@   ensures top-level-keys: jsonKeys("unredactableEventFieldsV1") == "auth_events,content,depth,event_id,hashes,membership,origin,origin_server_ts,prev_events,prev_state,room_id,sender,signatures,state_key,type"
+//@   assigns nothing
 
 // redaction algorithm of room versions 8
 //@ func redactEventJSONV3
@@ -1463,6 +1474,7 @@ package gomatrixserverlib
 //@   calls redactEventJSON[*unredactableEventFieldsV1] algorithm: eventTypeToKeepContentFields == unredactableContentFieldsV3 && unredactableEvent != nil && *unredactableEvent == zero("unredactableEventFieldsV1") && eventJSON == root_eventJSON
 //@   ensures delegated: called("redactEventJSON[*unredactableEventFieldsV1]") && result[0] == ret("redactEventJSON[*unredactableEventFieldsV1]", 0) && result[1] == ret("redactEventJSON[*unredactableEventFieldsV1]", 1)
 //@   ensures top-level-keys: jsonKeys("unredactableEventFieldsV1") == "auth_events,content,depth,event_id,hashes,membership,origin,origin_server_ts,prev_events,prev_state,room_id,sender,signatures,state_key,type"
+//@   assigns nothing
 
 // redaction algorithm of room versions 9, 10
 //@ func redactEventJSONV4
@@ -1470,6 +1482,7 @@ package gomatrixserverlib
 //@   calls redactEventJSON[*unredactableEventFieldsV1] algorithm: eventTypeToKeepContentFields == unredactableContentFieldsV4 && unredactableEvent != nil && *unredactableEvent == zero("unredactableEventFieldsV1") && eventJSON == root_eventJSON
 //@   ensures delegated: called("redactEventJSON[*unredactableEventFieldsV1]") && result[0] == ret("redactEventJSON[*unredactableEventFieldsV1]", 0) && result[1] == ret("redactEventJSON[*unredactableEventFieldsV1]", 1)
 //@   ensures top-level-keys: jsonKeys("unredactableEventFieldsV1") == "auth_events,content,depth,event_id,hashes,membership,origin,origin_server_ts,prev_events,prev_state,room_id,sender,signatures,state_key,type"
+//@   assigns nothing
 
 // redaction algorithm of room versions 11, 12
 //@ func redactEventJSONV5
@@ -1477,12 +1490,14 @@ package gomatrixserverlib
 //@   calls redactEventJSON[*unredactableEventFieldsV2] algorithm: eventTypeToKeepContentFields == unredactableContentFieldsV5 && unredactableEvent != nil && *unredactableEvent == zero("unredactableEventFieldsV2") && eventJSON == root_eventJSON
 //@   ensures delegated: called("redactEventJSON[*unredactableEventFieldsV2]") && result[0] == ret("redactEventJSON[*unredactableEventFieldsV2]", 0) && result[1] == ret("redactEventJSON[*unredactableEventFieldsV2]", 1)
 //@   ensures top-level-keys: jsonKeys("unredactableEventFieldsV2") == "auth_events,content,depth,event_id,hashes,origin_server_ts,prev_events,room_id,sender,signatures,state_key,type"
+//@   assigns nothing
 
 //@ func (RoomVersionImpl).RedactEventJSON
 //@   property C05, C18:safety
 //@   requires v.redactionAlgorithm != nil
 //@   purecallbacks
 //@   ensures delegates-to-table-entry: result == v.redactionAlgorithm(eventJSON)
+//@   assigns nothing
 
 // EnforcedCanonicalJSON is C01's subject; C05 only needs that it is a function of its input.
 //@ func EnforcedCanonicalJSON
@@ -1586,6 +1601,7 @@ package gomatrixserverlib
 //@   results ev, err
 //@   requires roomVersion != nil
 //@   ensures fields: err == nil ==> (isType(ev, "*eventV1") && fresh(ev.(*eventV1)) && *ev.(*eventV1) == setfield(setfield(setfield(jmerge(zero("eventV1"), eventJSON), "eventJSON", eventJSON), "redacted", redacted), "roomVersion", roomVersion.Version()))
+//@   assigns nothing
 
 //@ func newEventFromTrustedJSONV2
 //@   property C04, C18:safety
@@ -1593,6 +1609,7 @@ package gomatrixserverlib
 //@   results ev, err
 //@   requires roomVersion != nil
 //@   ensures fields: err == nil ==> (isType(ev, "*eventV2") && fresh(ev.(*eventV2)) && *ev.(*eventV2) == setfield(jmerge(zero("eventV2"), eventJSON), "eventV1", setfield(setfield(setfield(jmerge(zero("eventV2"), eventJSON).eventV1, "eventJSON", eventJSON), "redacted", redacted), "roomVersion", roomVersion.Version())))
+//@   assigns nothing
 
 //@ func newEventFromTrustedJSONV3
 //@   property C04, C18:safety
@@ -1600,6 +1617,7 @@ package gomatrixserverlib
 //@   results ev, err
 //@   requires roomVersion != nil
 //@   ensures fields: err == nil ==> (isType(ev, "*eventV3") && fresh(ev.(*eventV3)) && ev.(*eventV3).eventV2 == setfield(jmerge(zero("eventV3"), eventJSON).eventV2, "eventV1", setfield(setfield(setfield(jmerge(zero("eventV3"), eventJSON).eventV2.eventV1, "eventJSON", eventJSON), "redacted", redacted), "roomVersion", roomVersion.Version())))
+//@   assigns nothing
 
 // ---------------------------------------------------------------- C18: no panics
 // Accessors of parsed events: safe for every non-nil receiver (thin contracts: the engine generates the
@@ -1744,12 +1762,14 @@ package gomatrixserverlib
 //@ func (*eventV1).RoomID
 //@   property C18:safety
 //@   requires e != nil && roomParses(e.eventFields.RoomID)
+//@   assigns nothing
 
 //@ func (*eventV3).AuthEventIDs
 //@   property C03, C18:safety
 //@   requires e != nil && (isCreateFields(e.eventFields) || len(e.eventFields.RoomID) >= 1)
 //@   ensures create-event-has-no-auth-events: isCreateFields(e.eventFields) ==> len(result) == 0
 //@   ensures create-event-is-always-first: !isCreateFields(e.eventFields) ==> (len(result) == 1 + len(e.AuthEvents) && result[0] == "$" + substr(e.eventFields.RoomID, 1, len(e.eventFields.RoomID)) && (forall i int :: 0 <= i && i < len(e.AuthEvents) ==> result[1 + i] == e.AuthEvents[i]))
+//@   assigns nothing
 
 // for the create event of a v12 room the room ID is derived from the event ID, which must have the hash form
 //@ func (*eventV3).RoomID
@@ -1786,6 +1806,7 @@ package gomatrixserverlib
 //@   property C18:safety
 //@   requires len(input) >= 4
 //@   ensures range: 0 <= result && result <= 65535
+//@   assigns nothing
 
 // The escape decoder is entered right after backslash-u inside a string of a lexically well-formed text: the four hex
 // digits exist, the string continues after them, and a following backslash is itself followed by a byte.
@@ -1814,6 +1835,7 @@ package gomatrixserverlib
 //@   requires event != nil && userIDForSender != nil
 //@   ensures authorised-by-the-collected-auth-events: result == nil ==> (called(Allowed) && ret(Allowed) == nil)
 //@   calls Allowed@root the-event-itself: event == root_event && userIDQuerier == root_userIDForSender
+//@   assigns eventsByID[*]
 
 //@ func (EventJSONs).UntrustedEvents
 //@   property C14, C18:safety
@@ -1829,10 +1851,12 @@ package gomatrixserverlib
 //@   requires userIDForSender != nil
 //@   ensures one-verdict-per-event: len(result) == len(events)
 //@   loop 1: invariant 0 <= idx(1) && idx(1) <= len(events) && len(errors) == idx(1)
+//@   assigns nothing
 
 //@ func CheckStateResponse
 //@   property C14
 //@   nosafety
+//@   zerooffsets
 //@   results authOut, stateOut, err
 //@   requires r != nil && userIDForSender != nil && ctx != nil
 //@   calls VerifyAllEventSignatures@root with-the-callers-verifier: verifier == root_keyRing && userIDForSender == root_userIDForSender
@@ -1853,6 +1877,8 @@ package gomatrixserverlib
 //@   calls CheckStateResponse@root the-whole-response: r == root_r && roomVersion == root_roomVersion && keyRing == root_keyRing && userIDForSender == root_userIDForSender
 //@   calls checkAllowedByAuthEvents@root the-join-event-against-its-auth-events: event == root_joinEvent && userIDForSender == root_userIDForSender
 //@   calls Allowed@root the-join-event-against-the-returned-state: event == root_joinEvent && userIDQuerier == root_userIDForSender
+//@   calls Allowed@root against-the-returned-state-only: forall t string, s string :: tuple(t, s) in authEvents.(*AuthEvents).events ==> (exists i int :: 0 <= i && i < len(ret(CheckStateResponse, 1)) && ret(CheckStateResponse, 1)[i] == get(authEvents.(*AuthEvents).events, tuple(t, s)))
+//@   loop 3: invariant 0 <= idx(3) && idx(3) <= len(stateEventsJSON) && authEventProvider != nil && authEventProvider.events != nil && authEventProvider.roomIDs != nil && (forall t string, s string :: tuple(t, s) in authEventProvider.events ==> (exists i int :: 0 <= i && i < len(stateEvents) && stateEvents[i] == get(authEventProvider.events, tuple(t, s))))
 
 //@ func VerifyEventAuthChain
 //@   property C14
@@ -1887,6 +1913,7 @@ package gomatrixserverlib
 //@   nosafety
 //@   requires membershipQuerier != nil
 //@   ensures refuses-joined-users: result == nil ==> (membershipQuerier.CurrentMembership(ctx, roomID, invitedUser)[1] == nil && membershipQuerier.CurrentMembership(ctx, roomID, invitedUser)[0] != "join")
+//@   assigns nothing
 
 // stripped-state helpers: outside the property (what the invite carries in unsigned), abstract
 //@ func GenerateStrippedState
@@ -1910,7 +1937,8 @@ package gomatrixserverlib
 //@   nosafety
 //@   ensures room-matches-the-request: result[1] == nil ==> input.InviteEvent.RoomID().raw == input.RoomID.raw
 //@   ensures is-an-invite: result[1] == nil ==> (input.InviteEvent.Type() == "m.room.member" && input.InviteEvent.Membership()[1] == nil && input.InviteEvent.Membership()[0] == "invite")
-//@   ensures signature-checked: result[1] == nil ==> (called(VerifyJSONs) && ret(VerifyJSONs, 1) == nil && ret(VerifyJSONs, 0)[0].Error == nil)
+//@   ensures signature-checked: result[1] == nil ==> (called(VerifyJSONs) && ret(VerifyJSONs, 1) == nil)
+//@   calls handleInviteCommonChecks@root only-after-a-good-signature: ret(VerifyJSONs, 1) == nil && ret(VerifyJSONs, 0)[0].Error == nil
 //@   ensures common-checks-on-the-counter-signed-event: result[1] == nil ==> (called(handleInviteCommonChecks) && ret(handleInviteCommonChecks, 1) == nil && result[0] == ret(handleInviteCommonChecks, 0))
 //@   calls VerifyJSONs@root the-senders-server-signed-the-redacted-event: len(requests) == 1 && requests[0].Message == ret(RedactEventJSON, 0) && requests[0].AtTS == root_input.InviteEvent.OriginServerTS() && requests[0].ValidityCheckingFunc == StrictValiditySignatureCheck && root_input.UserIDQuerier(root_input.RoomID, root_input.InviteEvent.SenderID())[1] == nil && string(requests[0].ServerName) == root_input.UserIDQuerier(root_input.RoomID, root_input.InviteEvent.SenderID())[0].domain
 //@   calls RedactEventJSON@root of-the-invite-event: eventJSON == root_input.InviteEvent.JSON() && ref(recv) == verImplRef(string(root_input.RoomVersion))
@@ -1920,15 +1948,33 @@ package gomatrixserverlib
 //@   property C15, C18:safety
 //@   ensures exact: result <==> (exists i int :: 0 <= i && i < len(supportedVersions) && supportedVersions[i] == roomVersion)
 //@   loop 1: invariant 0 <= idx(1) && idx(1) <= len(supportedVersions) && (forall i int :: 0 <= i && i < idx(1) ==> supportedVersions[i] != roomVersion)
+//@   assigns nothing
 
 // event-reference conversion for the template of v1/v2 rooms and ProtoEvent.SetContent: outside the property
 //@ func toEventReference
 //@   trusted
+//@   assigns nothing
 //@ func (*ProtoEvent).SetContent
 //@   trusted
 //@   assigns *pe
+// ---- the map-backed AuthEventProvider used by federation verification and the handlers
+//@ func (*AuthEvents).AddEvent
+//@   property C14
+//@   nosafety
+//@   requires a != nil && event != nil && a.events != nil && a.roomIDs != nil
+//@   ensures only-state-events: (result != nil) <==> (event.StateKey() == nil)
+//@   ensures recorded-under-its-own-key: result == nil ==> (tuple(event.Type(), *event.StateKey()) in a.events && a.events[tuple(event.Type(), *event.StateKey())] == event)
+//@   ensures other-keys-untouched: forall t string, s string :: (result != nil || !(t == event.Type() && s == *event.StateKey())) ==> ((tuple(t, s) in a.events) == old(tuple(t, s) in a.events) && get(a.events, tuple(t, s)) == old(get(a.events, tuple(t, s))))
+//@   ensures same-maps: a.events == old(a.events) && a.roomIDs == old(a.roomIDs)
+//@   assigns a.events[*], a.roomIDs[*]
+
 //@ func NewAuthEvents
-//@   trusted
+//@   property C14
+//@   nosafety
+//@   ensures fresh-provider: result[1] == nil ==> (result[0] != nil && fresh(result[0]) && result[0].events != nil && result[0].roomIDs != nil && fresh(result[0].events) && fresh(result[0].roomIDs))
+//@   ensures no-events-no-error: len(events) == 0 ==> result[1] == nil
+//@   ensures holds-only-the-given-events: result[1] == nil ==> (forall t string, s string :: tuple(t, s) in result[0].events ==> (exists i int :: 0 <= i && i < len(events) && events[i] == get(result[0].events, tuple(t, s))))
+//@   loop 1: invariant 0 <= idx(1) && idx(1) <= len(events) && a.events != nil && a.roomIDs != nil && (forall t string, s string :: tuple(t, s) in a.events ==> (exists i int :: 0 <= i && i < idx(1) && events[i] == get(a.events, tuple(t, s))))
 //@   assigns nothing
 
 //@ func HandleMakeJoin
@@ -1961,6 +2007,7 @@ package gomatrixserverlib
 //@   requires roomQuerier != nil
 //@   ensures authorising-user-may-invite: (result[1] == nil && result[0] != "" && !privilegedCreators) ==> (called(PowerLevels) && ret(PowerLevels, 1) == nil && UL(*ret(PowerLevels, 0), result[0]) >= ret(PowerLevels, 0).Invite)
 //@   ensures authorising-user-only-when-restricted: (result[1] == nil && result[0] != "") ==> (called(InvitePending) && !ret(InvitePending, 0) && ret(InvitePending, 1) == nil)
+//@   assigns nothing
 
 // ---------------------------------------------------------------- C01: canonical JSON (mechanisms)
 
@@ -2003,6 +2050,7 @@ package gomatrixserverlib
 //@ func sortJSONObject$2
 //@   property C01
 //@   ensures code-point-order-of-the-parsed-keys: result == extcall("strings.Compare", a.key, b.key)
+//@   assigns nothing
 
 //@ func sortJSONArray
 //@   property C01
@@ -2017,9 +2065,15 @@ package gomatrixserverlib
 
 // ---------------------------------------------------------------- C03: building and identifying events
 
-// hashes.sha256 is computed over the event without signatures, unsigned and hashes (C03); abstract here
+// hashes.sha256 is computed over the canonical form of the event without signatures, unsigned and hashes;
+// the result carries every other member unchanged, the new hashes object, and signatures / unsigned when non-empty
 //@ func addContentHashesToEvent
-//@   trusted
+//@   property C03
+//@   nosafety
+//@   calls CanonicalJSON@root of-the-event-without-signatures-unsigned-hashes: input == ret(Marshal, 0)
+//@   calls Sum256@root over-the-canonical-form: data == ret(CanonicalJSON, 0)
+//@   ensures hashed-the-canonical-form: result[1] == nil ==> (called(CanonicalJSON) && ret(CanonicalJSON, 1) == nil && called(Sum256))
+//@   assigns nothing
 
 // signing an event: the redacted form is signed, the signatures are copied back into the full event
 //@ func signEvent
@@ -2030,6 +2084,7 @@ package gomatrixserverlib
 //@   calls Marshal@root every-member-kept-signatures-replaced: v.("map[string]spec.RawJSON") != nil ==> forall k string :: (k in v.("map[string]spec.RawJSON")) <==> (k == "signatures" || after(Unmarshal, k in v.("map[string]spec.RawJSON")))
 //@   calls Marshal@root other-members-unchanged: forall k string :: (k != "signatures" && k in v.("map[string]spec.RawJSON")) ==> v.("map[string]spec.RawJSON")[k] == after(Unmarshal, v.("map[string]spec.RawJSON")[k])
 //@   ensures result-is-the-reassembled-event: result[1] == nil ==> (called(Marshal) && result[0] == ret(Marshal, 0))
+//@   assigns nothing
 
 //@ func (*EventBuilder).Build
 //@   property C03
@@ -2108,8 +2163,11 @@ package gomatrixserverlib
 //@   property C10
 //@   nosafety
 //@   purecallbacks
+//@   requires forall id string :: id in r.isRejectedCache ==> r.isRejectedCache[id] == r.isRejectedFn(id)
+//@   ensures cache-stays-faithful: forall id string :: id in r.isRejectedCache ==> r.isRejectedCache[id] == r.isRejectedFn(id)
+//@   calls AddEvent@root never-a-rejected-auth-event: exists i int :: 0 <= i && i < len(root_event.AuthEventIDs()) && event == r.authEventMap[root_event.AuthEventIDs()[i]] && !r.isRejectedFn(root_event.AuthEventIDs()[i])
 //@   calls AddEvent@root adds-the-auth-event-not-the-event: exists i int :: 0 <= i && i < len(root_event.AuthEventIDs()) && root_event.AuthEventIDs()[i] in r.authEventMap && event == r.authEventMap[root_event.AuthEventIDs()[i]] && event.Type() == root_eventType && event.StateKeyEquals(root_stateKey)
-//@   loop 1: invariant 0 <= idx(1) && idx(1) <= len(event.AuthEventIDs())
+//@   loop 1: invariant 0 <= idx(1) && idx(1) <= len(event.AuthEventIDs()) && (forall id string :: id in r.isRejectedCache ==> r.isRejectedCache[id] == r.isRejectedFn(id))
 
 // CompactJSON never indexes out of range on a lexically well-formed JSON text (what json.Valid / gjson.Valid accept);
 // its output slice must not be the input's backing array
@@ -2144,30 +2202,35 @@ package gomatrixserverlib
 //@   requires v.signatureValidityCheckFunc != nil
 //@   purecallbacks
 //@   ensures delegates-to-table-entry: result == v.signatureValidityCheckFunc(atTS, validUntilTS)
+//@   assigns nothing
 
 //@ func (RoomVersionImpl).CheckKnockingAllowed
 //@   property C17, C18:safety
 //@   requires v.checkKnockingAllowedFunc != nil
 //@   purecallbacks
 //@   ensures delegates-to-table-entry: result == v.checkKnockingAllowedFunc(roomVer, sender, target, joinRule, prevMembership)
+//@   assigns nothing
 
 //@ func (RoomVersionImpl).CheckRestrictedJoinsAllowed
 //@   property C17, C18:safety
 //@   requires v.checkRestrictedJoinAllowedFunc != nil
 //@   purecallbacks
 //@   ensures delegates-to-table-entry: result == v.checkRestrictedJoinAllowedFunc()
+//@   assigns nothing
 
 //@ func (RoomVersionImpl).RestrictedJoinServername
 //@   property C17, C18:safety
 //@   requires v.restrictedJoinServernameFunc != nil
 //@   purecallbacks
 //@   ensures delegates-to-table-entry: result == v.restrictedJoinServernameFunc(content)
+//@   assigns nothing
 
 //@ func (RoomVersionImpl).CheckCanonicalJSON
 //@   property C17, C01, C18:safety
 //@   requires v.canonicalJSONCheck != nil
 //@   purecallbacks
 //@   ensures delegates-to-table-entry: result == v.canonicalJSONCheck(eventJSON)
+//@   assigns nothing
 
 // ---------------------------------------------------------------- C18: zero-annotation sweep
 // Functions whose no-panic obligations discharge without any contract beyond a non-nil pointer receiver
